@@ -528,7 +528,7 @@ def _run_live(case):
     # quiet from here on: wait until the watcher has taken a snapshot after the last notification
     n0 = box['snaps']
     box['quiet'].set()
-    box['caught_up'].wait(30)
+    box['caught_up'].wait(0.5)      # (virtual seconds; the executor polls every 4 ms meanwhile)
     want = {n: test.measurements._measurements[n].measured_value.value for n in names
             if test.measurements._measurements[n].measured_value.is_value_set}
     last = box.get('last') or {}
